@@ -58,7 +58,7 @@ TERM = V('*-', 'SPINE_OPERATION')
 
 HEADER_TYPES = ['**kern', '**text', '**dynam', '**dyn', '**harm', '**mxhm', '**fing', '**root']
 OWN_CAT = {'**text': 'LYRICS', '**dynam': 'DYNAMICS', '**dyn': 'DYNAMICS', '**harm': 'HARMONY', '**mxhm': 'HARMONY',
-           '**fing': 'FINGERING'}
+           '**fing': 'FINGERING', '**zzz': 'OTHER'}
 KERN_LIKE = ('**kern', '**root')
 
 # --- signifiers (C01 canonicity) -----------------------------------------------------------------
